@@ -220,6 +220,14 @@ pub enum Op {
         /// 0 = drop the future without ever polling it; 1 = yield once, then await; n>=2 = sleep n ms, then await
         defer: u64,
     },
+    /// a send whose future is polled ONCE and then left alone for `hold` ms before it is awaited (a caller that is busy with
+    /// something else): while it is parked on a full mailbox it may be handed the next free slot without knowing it
+    SendHeld {
+        slot: usize,
+        kind: SendKind,
+        body: Body,
+        hold: u64,
+    },
     /// the same for stop(): a stop future that is created and dropped unpolled (the losing branch of a select!) has requested
     /// nothing - the actor goes on, and a later stop() does stop it
     StopDeferred {
